@@ -329,6 +329,9 @@ def obligations(tier: str) -> list[dict]:
         ob(QS, 3, 3, [1, 2, 4], [2, 2], T, 'then-extend', extend=[2, 3])
         ob(['single'], 3, 2, [1, 2, 4, 7], [1, 1], T, 'then-extend', extend=[2, 3])
         ob(QSS, 3, 3, [1, 2], [2, 3], T, 'gaps', pop=True)
+        # ScanPartitioner needs block size >= 3 and >= 5 qudits before two group qudits can resume at the same cycle
+        for a0 in ([0, 0], [1, 1]):
+            ob(['scan'], 5, 4, [2], [3, 3], T, 'twoq', a0=a0)
         flush(5, [2, 2], T)
         flush(5, [2, 4], T, base='triples')
         return obs
